@@ -46,7 +46,13 @@ func IllFormedGrammar(t *rapid.T, o IllFormedOpts) (*Grammar, []Injection) {
 	// place puts expression x at a left-reachable position of rule r
 	place := func(r int, x *Expr, label string) string {
 		old := g.Rules[r].Body
-		switch rapid.IntRange(0, 4).Draw(t, label) {
+		switch rapid.IntRange(0, 6).Draw(t, label) {
+		case 5: // after a semantic predicate: consumes nothing, whatever it computes
+			g.Rules[r].Body = Seq(&Expr{K: KPred, Pred: rapid.IntRange(0, len(Predicates)-1).Draw(t, label+"pred")}, x, old)
+			return "after-predicate"
+		case 6: // after a state change and an empty expression
+			g.Rules[r].Body = Seq(&Expr{K: KState}, &Expr{K: KEmpty}, x, old)
+			return "after-state-change"
 		case 0: // first element of a sequence
 			g.Rules[r].Body = Seq(x, term())
 			return "first"
